@@ -36,6 +36,7 @@ pub fn canary_hash_keyed(m: &HashMap<String, u32>) -> Option<&u32> { m.get("a") 
 pub fn canary_clock() -> u128 {
     std::time::SystemTime::now().duration_since(std::time::SystemTime::UNIX_EPOCH).unwrap().as_nanos()
 }
+pub fn canary_clock_elapsed() -> u128 { std::time::UNIX_EPOCH.elapsed().map(|d| d.as_nanos()).unwrap_or(0) }
 pub fn canary_env() -> Option<String> { std::env::var("HOME").ok() }
 pub fn canary_ptr_to_int(x: &u32) -> usize { x as *const u32 as usize }
 // R11.cfg / R9.nocfg
